@@ -739,15 +739,155 @@ Proof.
   rewrite models3d_spec by (try exact Hi; rewrite Hrow; exact Hj).
   rewrite (group3d_axis1_spec sigma spec sigs n1 i j Hperm Hrect Hep Hi Hj). split; reflexivity.
 Qed.
+
+(** G10: the settings attributes are re-assigned between fits.  The object carries its CURRENT option
+    set; a fit after any history of assignments and fits uses exactly the option set in force when it is
+    called (the last assignment, else the constructor's) - for every position - and nothing that an
+    earlier fit used. *)
+Lemma gact_run_app (st : @gstate K Sg T) (l1 l2 : list (@gaction K Sg)) :
+  gact_run cf epochs dK dS dT st (l1 ++ l2) =
+  gact_run cf epochs dK dS dT (gact_run cf epochs dK dS dT st l1) l2.
+Proof. unfold gact_run. apply fold_left_app. Qed.
+
+Theorem gact_run_current (st : @gstate K Sg T) (acts : list (@gaction K Sg)) :
+  fst (gact_run cf epochs dK dS dT st acts) = current_kw (fst st) acts.
+Proof.
+  revert st. induction acts as [|a t IH]; intros st; [reflexivity|].
+  unfold gact_run, current_kw in *. cbn [fold_left]. rewrite IH.
+  destruct a as [k|f]; reflexivity.
+Qed.
+
+Lemma current_kw_app (k0 : K) (l1 l2 : list (@gaction K Sg)) :
+  current_kw k0 (l1 ++ l2) = current_kw (current_kw k0 l1) l2.
+Proof. unfold current_kw. apply fold_left_app. Qed.
+
+(* the last assignment wins; fits do not touch the settings *)
+Lemma current_kw_set (k0 k : K) (acts : list (@gaction K Sg)) : current_kw k0 (acts ++ [ASet k]) = k.
+Proof. rewrite current_kw_app. reflexivity. Qed.
+Lemma current_kw_fit (k0 : K) (f : @gfit K Sg) (acts : list (@gaction K Sg)) :
+  current_kw k0 (acts ++ [AFit f]) = current_kw k0 acts.
+Proof. rewrite current_kw_app. reflexivity. Qed.
+
+Theorem gact_fit_uses_current (k0 : K) (o : @gobj Sg T) (acts : list (@gaction K Sg)) (f : @gfit K Sg) :
+  gact_run cf epochs dK dS dT (k0, o) (acts ++ [AFit f]) =
+  (current_kw k0 acts, gobj_fit cf epochs dK dS dT Unfitted (with_spec (current_kw k0 acts) f)).
+Proof.
+  rewrite gact_run_app.
+  destruct (gact_run cf epochs dK dS dT (k0, o) acts) as [k o1] eqn:E.
+  assert (Hk : k = current_kw k0 acts).
+  { change k with (fst (k, o1)). rewrite <- E. apply gact_run_current. }
+  subst k. unfold gact_run. cbn [fold_left gact fst snd].
+  reflexivity.
+Qed.
+
+(* ... which is what a freshly constructed object holding those settings gives on that array *)
+Corollary gact_fit_equals_fresh (k0 : K) (o : @gobj Sg T) (acts : list (@gaction K Sg)) (f : @gfit K Sg) :
+  gact_run cf epochs dK dS dT (k0, o) (acts ++ [AFit f]) =
+  gact_run cf epochs dK dS dT (current_kw k0 acts, Unfitted) [AFit f].
+Proof. rewrite gact_fit_uses_current. reflexivity. Qed.
+
+Lemma gobj_run_single (f : @gfit K Sg) :
+  gobj_fit cf epochs dK dS dT Unfitted f = gobj_run cf epochs dK dS dT Unfitted ([] ++ [f]).
+Proof. reflexivity. Qed.
+
+Theorem gact_last_fit_2d (k0 : K) (o : @gobj Sg T) (acts : list (@gaction K Sg))
+  (sigma : list nat) (spec : kwspec) (sigs : list Sg) :
+  Permutation sigma (seq 0 (length sigs)) ->
+  let k := current_kw k0 acts in
+  exists dfs models,
+    gact_run cf epochs dK dS dT (k0, o) (acts ++ [AFit (Fit2 sigma spec sigs)]) = (k, Fitted2 dfs models) /\
+    length dfs = length sigs /\ length models = length sigs /\
+    forall i, i < length sigs ->
+      nth i dfs dT = cf k (nth i sigs dS) /\
+      nth i models (dT, dS) = (cf k (nth i sigs dS), nth i sigs dS).
+Proof.
+  intros Hperm k. rewrite gact_fit_uses_current. fold k. cbn [with_spec]. rewrite gobj_run_single.
+  destruct (gobj_last_fit_2d Unfitted [] sigma (KwOne k) sigs Hperm) as (dfs & models & Hrun & Hl1 & Hl2 & Hpos).
+  exists dfs, models. rewrite Hrun. split; [reflexivity|]. split; [exact Hl1|]. split; [exact Hl2|].
+  intros i Hi. destruct (Hpos i Hi) as (H1 & H2). rewrite kw_for_shared in H1, H2. split; assumption.
+Qed.
+
+Theorem gact_last_fit_3d_axis01 (k0 : K) (o : @gobj Sg T) (acts : list (@gaction K Sg))
+  (sigma : list nat) (spec : kwspec) (sigs : list (list Sg)) (n1 : nat) :
+  Permutation sigma (seq 0 (length (concat sigs))) ->
+  (forall row, In row sigs -> length row = n1) ->
+  let k := current_kw k0 acts in
+  exists dfs models,
+    gact_run cf epochs dK dS dT (k0, o) (acts ++ [AFit (Fit3 2 sigma spec sigs n1)]) = (k, Fitted3 dfs models) /\
+    length dfs = length sigs /\ length models = length sigs /\
+    forall i, i < length sigs ->
+      length (nth i dfs []) = n1 /\ length (nth i models []) = n1 /\
+      forall j, j < n1 ->
+        nth j (nth i dfs []) dT = cf k (nth j (nth i sigs []) dS) /\
+        nth j (nth i models []) (dT, dS) = (cf k (nth j (nth i sigs []) dS), nth j (nth i sigs []) dS).
+Proof.
+  intros Hperm Hrect k. rewrite gact_fit_uses_current. fold k. cbn [with_spec]. rewrite gobj_run_single.
+  destruct (gobj_last_fit_3d_axis01 Unfitted [] sigma (KwOne k) sigs n1 Hperm Hrect)
+    as (dfs & models & Hrun & Hl1 & Hl2 & Hpos).
+  exists dfs, models. rewrite Hrun. split; [reflexivity|]. split; [exact Hl1|]. split; [exact Hl2|].
+  intros i Hi. destruct (Hpos i Hi) as (Hr1 & Hr2 & Hent). split; [exact Hr1|]. split; [exact Hr2|].
+  intros j Hj. destruct (Hent j Hj) as (H1 & H2). rewrite kw_for_shared in H1, H2. split; assumption.
+Qed.
+
+Theorem gact_last_fit_3d_axis0 (k0 : K) (o : @gobj Sg T) (acts : list (@gaction K Sg))
+  (sigma : list nat) (spec : kwspec) (sigs : list (list Sg)) (n1 : nat) :
+  Permutation sigma (seq 0 (length sigs)) ->
+  (forall row, In row sigs -> length row = n1) ->
+  (forall k sl, length (epochs k sl) = length sl) ->
+  let k := current_kw k0 acts in
+  exists dfs models,
+    gact_run cf epochs dK dS dT (k0, o) (acts ++ [AFit (Fit3 0 sigma spec sigs n1)]) = (k, Fitted3 dfs models) /\
+    length dfs = length sigs /\ length models = length sigs /\
+    forall i, i < length sigs ->
+      length (nth i dfs []) = n1 /\ length (nth i models []) = n1 /\
+      nth i dfs [] = epochs k (nth i sigs []) /\
+      forall j, j < n1 ->
+        nth j (nth i models []) (dT, dS) = (nth j (epochs k (nth i sigs [])) dT, nth j (nth i sigs []) dS).
+Proof.
+  intros Hperm Hrect Hep k. rewrite gact_fit_uses_current. fold k. cbn [with_spec]. rewrite gobj_run_single.
+  destruct (gobj_last_fit_3d_axis0 Unfitted [] sigma (KwOne k) sigs n1 Hperm Hrect Hep)
+    as (dfs & models & Hrun & Hl1 & Hl2 & Hpos).
+  exists dfs, models. rewrite Hrun. split; [reflexivity|]. split; [exact Hl1|]. split; [exact Hl2|].
+  intros i Hi. destruct (Hpos i Hi) as (Hr1 & Hr2 & Hrow & Hent). split; [exact Hr1|]. split; [exact Hr2|].
+  rewrite kw_for_shared in Hrow. split; [exact Hrow|].
+  intros j Hj. specialize (Hent j Hj). rewrite kw_for_shared in Hent. exact Hent.
+Qed.
+
+Theorem gact_last_fit_3d_axis1 (k0 : K) (o : @gobj Sg T) (acts : list (@gaction K Sg))
+  (sigma : list nat) (spec : kwspec) (sigs : list (list Sg)) (n1 : nat) :
+  Permutation sigma (seq 0 n1) ->
+  (forall row, In row sigs -> length row = n1) ->
+  (forall k sl, length (epochs k sl) = length sl) ->
+  let k := current_kw k0 acts in
+  exists dfs models,
+    gact_run cf epochs dK dS dT (k0, o) (acts ++ [AFit (Fit3 1 sigma spec sigs n1)]) = (k, Fitted3 dfs models) /\
+    length dfs = length sigs /\ length models = length sigs /\
+    forall i, i < length sigs ->
+      length (nth i dfs []) = n1 /\ length (nth i models []) = n1 /\
+      forall j, j < n1 ->
+        nth j (nth i dfs []) dT = nth i (epochs k (map (fun row => nth j row dS) sigs)) dT /\
+        nth j (nth i models []) (dT, dS) =
+        (nth i (epochs k (map (fun row => nth j row dS) sigs)) dT, nth j (nth i sigs []) dS).
+Proof.
+  intros Hperm Hrect Hep k. rewrite gact_fit_uses_current. fold k. cbn [with_spec]. rewrite gobj_run_single.
+  destruct (gobj_last_fit_3d_axis1 Unfitted [] sigma (KwOne k) sigs n1 Hperm Hrect Hep)
+    as (dfs & models & Hrun & Hl1 & Hl2 & Hpos).
+  exists dfs, models. rewrite Hrun. split; [reflexivity|]. split; [exact Hl1|]. split; [exact Hl2|].
+  intros i Hi. destruct (Hpos i Hi) as (Hr1 & Hr2 & Hent). split; [exact Hr1|]. split; [exact Hr2|].
+  intros j Hj. destruct (Hent j Hj) as (H1 & H2). rewrite kw_for_shared in H1, H2. split; assumption.
+Qed.
 End GroupProofs.
 
 (** the correspondence instance: the tables of the object after a history are those of the function
-    called on the last array *)
-Lemma run_group_object_tables (h : list gcase) (g : gcase) :
-  fst (run_group_object (h ++ [g])) = run_group g.
+    called on the last array with the object's current option set given as a (shared) one-element list *)
+Definition with_kw (kw : gkw) (g : gcase) : gcase :=
+  match g with G2 sigma _ n0 => G2 sigma kw n0 | G3 ax sigma _ n0 n1 => G3 ax sigma kw n0 n1 end.
+Lemma run_group_object_tables (k0 : nat) (h : list ghist) (g : gcase) :
+  fst (run_group_object (k0, h ++ [HFit g])) =
+  run_group (with_kw (GList [current_kw k0 (map act_of_hist h)]) g).
 Proof.
-  unfold run_group_object. rewrite map_app. cbn [map].
-  rewrite gobj_refit_replaces.
+  unfold run_group_object. cbn [fst snd]. rewrite map_app. cbn [map act_of_hist].
+  rewrite gact_fit_uses_current. cbn [snd].
   destruct g as [sigma kw n0 | ax sigma kw n0 n1]; [reflexivity|].
   destruct ax as [|[|ax]]; reflexivity.
 Qed.
@@ -836,6 +976,15 @@ Proof. vm_compute. reflexivity. Qed.
 
 (** a re-fitted object: 3 x 2 array along axis (0,1), then a 2-row 2-D array - nothing of the first fit is left *)
 Example run_group_object_refit_example :
-  run_group_object [G3 2 [0; 1; 2; 3; 4; 5] GShared 3 2; G2 [1; 0] GShared 2] =
+  run_group_object (999, [HFit (G3 2 [0; 1; 2; 3; 4; 5] GShared 3 2); HFit (G2 [1; 0] GShared 2)]) =
   ([[id_cf 999 0; id_cf 999 1]], [[(id_cf 999 0, 0); (id_cf 999 1, 1)]]).
+Proof. vm_compute. reflexivity. Qed.
+
+(** settings re-assigned between two fits (and once more before any fit): the second fit analyses every
+    row with the option set assigned last (1002), not with the one of the first fit (1001) or of the
+    constructor (999) *)
+Example run_group_object_reassign_example :
+  run_group_object (999, [HSet 1001; HFit (G3 0 [1; 0] GShared 2 3); HSet 1002; HFit (G2 [2; 0; 1] GShared 3)]) =
+  ([[id_cf 1002 0; id_cf 1002 1; id_cf 1002 2]],
+   [[(id_cf 1002 0, 0); (id_cf 1002 1, 1); (id_cf 1002 2, 2)]]).
 Proof. vm_compute. reflexivity. Qed.
